@@ -61,9 +61,28 @@ static inline BA rfc5802_expected_server_signature(int h, unsigned hlen, BA pw, 
    empty when absent.  The attribute extraction itself (split at ',', "k=" prefix) is character-level and not verified here. */
 typedef struct GS2Map { bool nonempty; int src; } GS2Map;
 bool __CPROVER_uninterpreted_gs2_has(int msg, char key);
+bool __CPROVER_uninterpreted_gs2_attr_empty(int msg, char key);
 int __CPROVER_uninterpreted_gs2_attr(int msg, char key);
-static inline BA gs2_attr(BA msg, char key) { int i = ba_id(msg); return (msg.n != 0 && __CPROVER_uninterpreted_gs2_has(i, key)) ? ba_atom(__CPROVER_uninterpreted_gs2_attr(i, key)) : ba_empty(); }
-static inline void GS2Map_value(BA *r, const GS2Map *m, char key) { *r = (m->nonempty && __CPROVER_uninterpreted_gs2_has(m->src, key)) ? ba_atom(__CPROVER_uninterpreted_gs2_attr(m->src, key)) : ba_empty(); }
+/* attribute `key` of the message: present or not, and its possibly empty value ("v=" is present and empty) */
+static inline bool gs2_has(BA msg, char key) { return msg.n != 0 && __CPROVER_uninterpreted_gs2_has(ba_id(msg), key); }
+static inline BA gs2_attr(BA msg, char key) { int i = ba_id(msg); return (msg.n != 0 && __CPROVER_uninterpreted_gs2_has(i, key) && !__CPROVER_uninterpreted_gs2_attr_empty(i, key)) ? ba_atom(__CPROVER_uninterpreted_gs2_attr(i, key)) : ba_empty(); }
+/* QMap<char,QByteArray>: value(key), value(key, default), contains, count, const operator[], find / constFind + iterators all read
+   these same facts */
+typedef struct GS2It { bool at_end; char k; BA v; } GS2It;
+static inline void GS2Map_find(GS2It *r, const GS2Map *m, char key) {
+  r->k = key; r->v = ba_empty();
+  r->at_end = !(m->nonempty && __CPROVER_uninterpreted_gs2_has(m->src, key));
+  if (!r->at_end && !__CPROVER_uninterpreted_gs2_attr_empty(m->src, key)) r->v = ba_atom(__CPROVER_uninterpreted_gs2_attr(m->src, key));
+}
+static inline void GS2Map_end(GS2It *r, const GS2Map *m) { r->at_end = true; r->k = 0; r->v = ba_empty(); }
+static inline bool GS2It_eq(const GS2It *a, const GS2It *b) { return a->at_end ? b->at_end : (!b->at_end && a->k == b->k); }
+static inline bool GS2It_ne(const GS2It *a, const GS2It *b) { return !GS2It_eq(a, b); }
+static inline const BA *GS2It_value(const GS2It *it) { __CPROVER_assert(!it->at_end, "[safety.map_iterator_dereferenced_only_when_it_is_not_end]"); return &it->v; }
+static inline char GS2It_key(const GS2It *it) { __CPROVER_assert(!it->at_end, "[safety.map_iterator_dereferenced_only_when_it_is_not_end]"); return it->k; }
+static inline bool GS2Map_contains(const GS2Map *m, char key) { GS2It it; GS2Map_find(&it, m, key); return !it.at_end; }
+static inline int GS2Map_count(const GS2Map *m, char key) { return GS2Map_contains(m, key) ? 1 : 0; }
+static inline void GS2Map_value2(BA *r, const GS2Map *m, char key, const BA *dflt) { GS2It it; GS2Map_find(&it, m, key); *r = it.at_end ? *dflt : it.v; }
+static inline void GS2Map_value(BA *r, const GS2Map *m, char key) { BA e = ba_empty(); GS2Map_value2(r, m, key, &e); }
 void parseGS2(GS2Map *_ret, const BA *ba)
 __CPROVER_requires(__CPROVER_is_fresh(_ret, sizeof(*_ret)))
 __CPROVER_requires(__CPROVER_is_fresh(ba, sizeof(*ba)))
